@@ -361,6 +361,45 @@ func runC20(c *Ctx) {
 			c.count("tag_beyond_ascii")
 		}
 	}
+	// the source-network list answers through the same set: the same histories on a CIDRList (a query whose lower-case
+	// form has another byte length than the query - Kelvin sign, capital sharp s, dotted capital I - among them)
+	{
+		ualpha := []string{"\u212a", "k", "K", "\u1e9e", "\u00df", "\u0130", "i\u0307", "\u023a", "\u2c65", "\u212b", "\u00e5", " \u212a ", "\u00c4", "\u00e4", "10.0.0.0/8", "FE80::/10"}
+		unorm := func(x string) string { return strings.ToLower(strings.TrimSpace(x)) }
+		for i := 0; i < 400; i++ {
+			var cl jwt.CIDRList
+			sp := &ordset{norm: unorm}
+			var hist []lop
+			for j := 0; j < 1+c.Rng.Intn(6); j++ {
+				a := ualpha[c.Rng.Intn(len(ualpha))]
+				if c.Rng.Intn(5) == 0 {
+					cl.Remove(a)
+					sp.remove(a)
+					hist = append(hist, lop{"remove", []string{a}})
+				} else {
+					cl.Add(a)
+					sp.add(a)
+					hist = append(hist, lop{"add", []string{a}})
+				}
+				bad := false
+				for _, probe := range ualpha {
+					c.sum.ImplChecks++
+					if strings.Join(cl, "\x00") != strings.Join(sp.items, "\x00") || cl.Contains(probe) != sp.has(probe) {
+						c.violation("source-network list beyond ASCII: contents or membership differ from the lower-cased ordered-set specification",
+							map[string]interface{}{"list": "cidr", "history": append([]lop{}, hist...), "impl": append([]string{}, cl...), "spec": append([]string{}, sp.items...), "probe": probe,
+								"impl_contains": cl.Contains(probe), "spec_contains": sp.has(probe)})
+						bad = true
+						break
+					}
+				}
+				if bad {
+					break
+				}
+			}
+			c.sum.Evaluations++
+			c.count("cidr_beyond_ascii")
+		}
+	}
 	// source networks: both JSON forms
 	// (the same network written with and without blanks, in both letter cases: one entry of the set)
 	calpha := []string{"10.0.0.0/8", "192.168.1.0/24", "::1/128", "A:B::/32", " 10.1.0.0/16 ", "", "fe80::/10", " 10.0.0.0/8", "10.0.0.0/8 ", "a:b::/32", "FE80::/10 ", "10.1.0.0/16",
